@@ -31,6 +31,7 @@ type Transfer struct {
 	Spec     *spec.Spec        `json:"spec,omitempty"`
 	Memo     string            `json:"memo"`
 	RawData  []byte            `json:"raw_data,omitempty"` // packet data verbatim if set
+	Seq      uint64            `json:"seq,omitempty"`      // packet sequence (0 = next forged sequence)
 }
 
 // EffectiveReceiver is the receiver string the packet carries ("" if the data is not a JSON
@@ -246,7 +247,11 @@ func Do(w *world.World, ctx sdk.Context, t Transfer, m Mode) *Obs {
 			w.FarTimeout(), 0)
 		o.Res = w.RecvC(ctx, m.Mod, o.Pkt)
 	default:
-		o.Pkt = w.ForgePacket(ctx, t.Pair, t.Data())
+		if t.Seq != 0 {
+			o.Pkt = w.ForgePacketSeq(ctx, t.Pair, t.Data(), t.Seq)
+		} else {
+			o.Pkt = w.ForgePacket(ctx, t.Pair, t.Data())
+		}
 		o.Res = w.RecvH(ctx, o.Pkt)
 	}
 	o.After = w.Snapshot(ctx)
